@@ -44,19 +44,24 @@ Definition flat_neig (neig : list (list (N * bytes))) : list (nat * (nat * bytes
 (* A float32 member inside a CQM (whose biases are float64): the exact widening conversion of IEEE-754 binary32 to
    binary64 on the little-endian byte strings (sign, 8-bit exponent biased 127, 23-bit fraction -> sign, 11-bit
    exponent biased 1023, 52-bit fraction; zeros, subnormals (renormalised), infinities and NaN payloads included) *)
-Definition f32_to_f64 (b : bytes) : bytes :=
-  let x := le_dec (firstn 4 b) in
-  let sign := N.shiftr x 31 in
-  let e := N.land (N.shiftr x 23) 255 in
-  let m := N.land x 8388607 in
-  let body :=
-    if N.eqb e 0 then
-      if N.eqb m 0 then 0%N
-      else let p := N.log2 m in                     (* value m * 2^-149 = 1.xxx * 2^(p-149) *)
-           N.lor (N.shiftl (p + 874) 52) (N.shiftl (m - N.shiftl 1 p) (52 - p))
-    else if N.eqb e 255 then N.lor (N.shiftl 2047 52) (N.shiftl m 29)
-    else N.lor (N.shiftl (e + 896) 52) (N.shiftl m 29) in
-  le_enc 8 (N.lor (N.shiftl sign 63) body).
+Definition unpack32 (x : N) : N * N * N := (N.shiftr x 31, N.land (N.shiftr x 23) 255, N.land x 8388607).
+
+(* on the fields (sign, biased exponent, fraction) *)
+Definition widen_fields (f : N * N * N) : N * N * N :=
+  match f with
+  | (s, e, m) =>
+      if N.eqb e 0 then
+        if N.eqb m 0 then (s, 0, 0)%N
+        else let p := N.log2 m in                     (* value m * 2^-149 = 1.xxx * 2^(p-149) *)
+             (s, p + 874, N.shiftl (m - N.shiftl 1 p) (52 - p))%N
+      else if N.eqb e 255 then (s, 2047%N, N.shiftl m 29)
+      else (s, (e + 896)%N, N.shiftl m 29)
+  end.
+
+Definition pack64 (f : N * N * N) : N :=
+  match f with (s, e, m) => N.lor (N.shiftl s 63) (N.lor (N.shiftl e 52) m) end.
+
+Definition f32_to_f64 (b : bytes) : bytes := le_enc 8 (pack64 (widen_fields (unpack32 (le_dec (firstn 4 b))))).
 
 Definition widen (d : dtype) (b : bytes) : bytes := match d with F32 => f32_to_f64 b | F64 => b end.
 Definition widen_vinfo (d : dtype) (v : vinfo) : vinfo := (fst v, (widen d (fst (snd v)), widen d (snd (snd v)))).
